@@ -74,6 +74,11 @@ impl Engine for HrEngine {
                 let leaves = ["b", "c", "d.x", "d.y", "e"];
                 let mut script = vec!["1".to_string()];
                 let mut plan = vec![];
+                // sometimes a contained loader panic inside no_record comes first: recording must resume after it
+                if rng.chance(1, 2) {
+                    l.push(format!("src.put {} {} {} 0", hexs("boom"), hexs("s"), hexs("#")));
+                    script.push("^S1:boom".to_string());
+                }
                 for leaf in leaves.iter() {
                     let k = *rng.pick(&kinds);
                     let t = *rng.pick(&["S1", "S2", "M20"]);
@@ -90,6 +95,10 @@ impl Engine for HrEngine {
                 // some leaves are also loaded directly (so that they are cached and registered themselves)
                 for leaf in leaves.iter() { if rng.chance(1, 2) { l.push(format!("load {} {}", rng.pick(&["S1", "S2", "M20"]), hexs(leaf))); } }
                 l.push(format!("load S0 {}", hexs("a")));
+                // leaves looked up while absent become cached (and registered) only now
+                for tok in plan.iter() {
+                    if let Some((t, leaf)) = tok[1..].split_once(':') { if tok.starts_with('?') && rng.chance(2, 3) { l.push(format!("load {t} {}", hexs(leaf))); } }
+                }
                 l.push(format!("plan {}", plan.join(",")));
                 l.push("reload".into());
                 l.push("dump".into());
@@ -109,6 +118,8 @@ impl Engine for HrEngine {
             // ---------------------------------------------------------------- C10: non-reloadable things
             1 => {
                 let mode = *rng.pick(&["hot", "hot", "nohot-ctor", "nohot-src"]);
+                // C10 quantifies over all constructors: a quarter of the cases run on a LocalAssetCache (never has a reloader)
+                let fe = if rng.chance(1, 4) { *rng.pick(&["local", "localany"]) } else { fe };
                 l.push(format!("cfg {fe} {mode}"));
                 l.push("family nonreloadable".into());
                 for id in ["a", "b", "c"] {
@@ -183,6 +194,10 @@ impl Engine for HrEngine {
                     l.push(format!("fresh S0 {}", hexs("a")));
                 }
             }
+            // ---------------------------------------------------------------- C05: an asset first loaded DURING a pass (known finding F-C05d)
+            6 => {
+                l.push(format!("newdep {}", if tier == Tier::Thorough { 60 } else { 24 }));
+            }
             // ---------------------------------------------------------------- C05: convergence over random DAGs
             _ => {
                 let static_mode = idx % 8 == 7;
@@ -229,6 +244,10 @@ impl Engine for HrEngine {
     }
 
     fn exec_case(&mut self, lines: &[String], rec: &mut CaseRec) {
+        if let Some(n) = lines.first().and_then(|l| l.strip_prefix("newdep ")).and_then(|n| n.parse::<usize>().ok()) {
+            newdep_probe(n, rec);
+            return;
+        }
         let first = lines.first().map(|s| s.split_whitespace().collect::<Vec<_>>()).unwrap_or_default();
         if first.len() != 3 || first[0] != "cfg" { rec.op(lines.first().cloned().unwrap_or_default(), "bad-op"); return; }
         let mut wx = WorldExec::new(first[1], first[2]);
@@ -289,6 +308,7 @@ impl Engine for HrEngine {
             rec.op(model_line, out.clone());
             rec.nontrivial = true;
             rec.stat(format!("op={}", w[0]));
+            if wx.unspecified { rec.stat("truncated/new-asset-loaded-during-a-pass"); break; }
             match w[0] {
                 "notify" => {
                     notified_since_reload = true;
@@ -375,3 +395,29 @@ impl Engine for HrEngine {
 }
 
 fn last_present(_wx: &WorldExec, goi: &BTreeMap<(String, String), String>, key: &(String, String)) -> bool { goi.contains_key(key) }
+
+/// Known finding F-C05d. In one pass two files change: `b.s` (its new script loads `c`, which was never cached) and
+/// `e.s`; `c` loads `e`. The pass was sorted before `c` existed, so whether `b` (and with it the fresh `c`) or `e` is
+/// reloaded first is the arbitrary iteration order of a hash set: in one order `c` is built from the stale `e` and nothing
+/// reloads it afterwards. Everything was notified, yet after `hot_reload` returns the cached `c` differs from a fresh load.
+fn newdep_probe(trials: usize, rec: &mut CaseRec) {
+    let mut stale = 0usize;
+    for t in 0..trials {
+        let mut wx = WorldExec::new("shared", "hot");
+        for (id, sc) in [("b", "1"), ("e", "10"), ("c", "100 +S0:e")] { wx.op(&format!("src.put {} {} {} 0", hexs(id), hexs("s"), hexs(sc))); }
+        wx.op(&format!("load S0 {}", hexs("b")));
+        wx.op(&format!("load S0 {}", hexs("e")));
+        wx.op(&format!("src.put {} {} {} 0", hexs("b"), hexs("s"), hexs("2 +S1:c")));
+        wx.op(&format!("src.put {} {} {} 0", hexs("e"), hexs("s"), hexs(&format!("{}", 20 + t))));
+        wx.op(&format!("notify f:{}:{} f:{}:{}", hexs("b"), hexs("s"), hexs("e"), hexs("s")));
+        wx.op("reload");
+        let cached = wx.peek("S1", "c").map(|p| p.0);
+        let fresh = wx.op(&format!("owned S1 {}", hexs("c")));
+        if let (Some(c), Some(f)) = (cached, fresh.strip_prefix("ok ")) { if c != f { stale += 1; } }
+    }
+    rec.nontrivial = true;
+    rec.stat("family=newdep");
+    rec.stat(format!("newdep/stale-trials={}", if stale == 0 { "0" } else { ">0" }));
+    if stale > 0 { rec.oracle_fail(format!("stale-asset-first-loaded-during-reload in {stale} of {trials} trials: S1:c (first loaded by the reload of S0:b) was built from the stale S0:e and not reloaded, although b.s and e.s were both notified before hot_reload")); }
+    rec.op(format!("hr.newdep {trials}"), "observed");
+}
